@@ -128,9 +128,22 @@ func ensureWorker(race bool) (string, string) {
 			f.Close()
 			break
 		}
-		if st, err := os.Stat(lock); err == nil && time.Since(st.ModTime()) > 15*time.Minute {
-			os.Remove(lock)
-			continue
+		if st, err := os.Stat(lock); err == nil {
+			// stale lock: its owner is gone (or it is implausibly old)
+			stale := time.Since(st.ModTime()) > 15*time.Minute
+			if b, err := os.ReadFile(lock); err == nil {
+				if pid, err := strconv.Atoi(strings.TrimSpace(string(b))); err == nil && pid > 0 {
+					if _, err := os.Stat(fmt.Sprintf("/proc/%d", pid)); err != nil {
+						stale = true
+					}
+				} else if time.Since(st.ModTime()) > 5*time.Second {
+					stale = true
+				}
+			}
+			if stale {
+				os.Remove(lock)
+				continue
+			}
 		}
 		time.Sleep(500 * time.Millisecond)
 		if _, err := os.Stat(bin); err == nil {
